@@ -18,7 +18,12 @@ through a real FilteringLogObserver (exactly one of wrapped / negative observer 
 Events without level or namespace are don't-care and not generated.
 
 History: LimitedHistoryLogObserver(n), n in {None, 0, 1, ...}: after any stream every replayTo
-yields exactly the last min(n, count) event objects, in order (identity).
+yields exactly the last min(n, count) event objects, in order (identity); a replay into an observer
+that raises delivers a prefix of them (the exception may propagate) and leaves the buffer intact.
+
+Re-entrancy: observers that remove themselves / remove or add another observer / publish a nested
+event from inside their call: every observer registered throughout an event's dispatch gets it
+exactly once, in registration order (observers removed or added during the dispatch: don't-care).
 """
 LEVEL = "exploration"
 ENGINE = "core"
@@ -27,12 +32,15 @@ RULE = ("random scenarios: 1-6 observers (recording / raising on a per-event pat
         "1-8 events with unique ids (some with log_trace), add/remove/re-add between events; filter: 0-8 "
         "configuration ops over a namespace universe with shared prefixes, empty segments and non-dotted "
         "look-alikes (a vs ab), then 1-10 events; history: sizes None/0..8 and streams of 0..20 events with "
-        "replays in between.  Distinct = scenario recipe; non-trivial = publisher scenario with >=1 raising "
+        "replays in between (some into a target that raises at its j-th event); re-entrant scenarios: 2-5 observers, "
+        "1-3 one-shot actions (remove self / remove other / add / publish a nested event) triggered by given events.  Distinct = scenario recipe; non-trivial = publisher scenario with >=1 raising "
         "observer, filter scenario with >=1 configured namespace, history stream longer than the size.")
 ASSUMPTIONS = ["trusted base: the recording observers and the three reference models of this module"]
 SHARDS = {"quick": 4, "thorough": 16}
 FLOORS = {"orig_deliveries": 20000, "reports_checked": 5000, "nested_reports_checked": 300, "filter_decisions": 20000,
-          "filter_prefix_hits": 3000, "filter_default_hits": 3000, "history_replays": 5000, "history_overflowing": 1000}
+          "filter_prefix_hits": 3000, "filter_default_hits": 3000, "history_replays": 5000, "history_overflowing": 1000,
+          "reentrant_publishes": 10000, "removed_during_dispatch": 2000, "added_during_dispatch": 500, "nested_emits": 2000,
+          "history_raising_replays": 5000, "history_replays_aborted_by_target": 1000}
 READY = True
 
 LEVELS = ["debug", "info", "warn", "error", "critical"]
@@ -288,7 +296,8 @@ def g_history(rng):
     size = rng.choice([None, 0, 1, 1, 2, 3, 5, 8])
     ops = []
     for _ in range(rng.randrange(0, 21)):
-        ops.append("replay" if rng.random() < 0.15 else "event")
+        r = rng.random()
+        ops.append("replay" if r < 0.15 else ("replay-raise@%d" % rng.randrange(0, 6) if r < 0.25 else "event"))
     ops.append("replay")
     return {"size": size, "ops": ops}
 
@@ -304,10 +313,36 @@ def check_history(ctx, sc):
             sent.append(e)
             h(e)
             continue
-        out = []
-        h.replayTo(out.append)
         n = len(sent) if sc["size"] is None else min(sc["size"], len(sent))
         want = sent[len(sent) - n:] if n else []
+        if op.startswith("replay-raise@"):
+            # the target observer raises at its j-th event: the exception may propagate (the statement does
+            # not ask replayTo to swallow it) but what was delivered is then a prefix of the last n events,
+            # in order, and the buffer is intact (checked by the following plain replays)
+            j = int(op.split("@")[1])
+            out = []
+
+            def target(e, out=out, j=j):
+                out.append(e)
+                if len(out) == j + 1:
+                    raise Boom("replay target")
+
+            raised = False
+            try:
+                h.replayTo(target)
+            except Boom:
+                raised = True
+            ctx.count("history_raising_replays")
+            if raised:
+                ctx.count("history_replays_aborted_by_target")
+            okay = len(out) <= len(want) and all(a is b for a, b in zip(out, want)) and (len(out) == len(want) or (raised and len(out) == j + 1))
+            if not okay:
+                ctx.violation("history-replay-into-raising-observer", "replay into a raising observer delivered something that is not a prefix of (or all of) the last n events",
+                              {"scenario": sc, "raises_at": j, "exception_propagated": raised, "expected_ids": [e["id"] for e in want], "observed_ids": [e.get("id") for e in out]})
+                return
+            continue
+        out = []
+        h.replayTo(out.append)
         ctx.count("history_replays")
         if sc["size"] is not None and len(sent) > sc["size"]:
             ctx.count("history_overflowing")
@@ -317,6 +352,104 @@ def check_history(ctx, sc):
             return
     if sc["size"] is not None and len(sent) > sc["size"]:
         ctx.distinct(("hist", sc))
+
+
+# ------------------------------------------------------------------------------------------------
+# re-entrancy: observers that remove / add observers or publish another event from inside their call
+
+def g_reentrant(rng):
+    nobs = rng.randrange(2, 6)
+    nev = rng.randrange(1, 5)
+    kind = rng.choice(["mutate", "mutate", "emit"])
+    acts = []   # [observer, on event id, what, arg]
+    for _ in range(rng.randrange(1, 4)):
+        o = rng.randrange(nobs)
+        k = rng.randrange(nev)
+        if kind == "emit":
+            acts.append([o, k, "emit", 100 + 10 * k + o])
+        else:
+            what = rng.choice(["remove-self", "remove-self", "remove", "add"])
+            acts.append([o, k, what, o if what == "remove-self" else rng.randrange(nobs)])
+    initial = [i for i in range(nobs) if rng.random() < 0.8] or [0]
+    return {"n": nobs, "events": nev, "kind": kind, "actions": acts, "initial": initial}
+
+
+def check_reentrant(ctx, sc):
+    """Oracle: an observer that is registered during the WHOLE dispatch of an event (registered before,
+    not removed while it is dispatched) receives that event exactly once, and these observers are
+    served in registration order.  Guards: an observer removed or added while the event is being
+    dispatched is don't-care for that event.  A nested event published by an observer is an
+    event like any other (checked the same way); interleaving of outer and nested deliveries is free."""
+    from twisted.logger import LogPublisher
+
+    state = {"R": list(sc["initial"]), "log": [], "removed": set(), "added": set(), "fired": set()}
+    observers = []
+    pub = LogPublisher()
+
+    def make(i):
+        def obs(event):
+            state["log"].append((i, event))
+            if len(state["log"]) > 2000:
+                raise Boom("storm")
+            for n, (o, k, what, arg) in enumerate(sc["actions"]):
+                if o != i or event.get("id") != k or n in state["fired"]:
+                    continue
+                state["fired"].add(n)
+                if what == "emit":
+                    ctx.count("nested_emits")
+                    nested = {"id": arg, "log_format": "nested"}
+                    state["nested"].append((nested, list(state["R"])))
+                    pub(nested)
+                elif what in ("remove", "remove-self"):
+                    pub.removeObserver(observers[arg])
+                    if arg in state["R"]:
+                        state["R"].remove(arg)
+                        state["removed"].add(arg)
+                        ctx.count("removed_during_dispatch")
+                else:
+                    pub.addObserver(observers[arg])
+                    if arg not in state["R"]:
+                        state["R"].append(arg)
+                        state["added"].add(arg)
+                        ctx.count("added_during_dispatch")
+        obs.idx = i
+        return obs
+
+    observers.extend(make(i) for i in range(sc["n"]))
+    for i in sc["initial"]:
+        pub.addObserver(observers[i])
+    for k in range(sc["events"]):
+        before = list(state["R"])
+        state.update(log=[], removed=set(), added=set(), nested=[])
+        event = {"id": k, "log_format": "outer"}
+        wit = {"scenario": sc, "at_event": k, "registered_before": before}
+        try:
+            pub(event)
+        except BaseException as x:  # noqa
+            ctx.violation("publisher-raises", "LogPublisher.__call__ let an exception escape (re-entrant scenario)", dict(wit, observed=repr(x)[:200]))
+            return
+        ctx.count("reentrant_publishes")
+        for ev, reg in [(event, before)] + state["nested"]:
+            got = [i for i, e in state["log"] if e is ev]
+            outer = ev is event
+            unstable = (state["removed"] | state["added"]) if outer else set()
+            stable = [i for i in reg if i not in unstable]
+            got_stable = [i for i in got if i in stable]
+            w2 = dict(wit, event_id=ev["id"], nested=not outer, registered_throughout=stable, delivered_to=got,
+                      removed_during_dispatch=sorted(state["removed"]), added_during_dispatch=sorted(state["added"]))
+            if got_stable != stable:
+                missing = [i for i in stable if i not in got]
+                if outer and missing and state["removed"] and len(got_stable) == len(set(got_stable)):
+                    ctx.violation("publisher-remove-during-dispatch-skips-observer",
+                                  "an observer removed an observer while an event was being dispatched; another observer, registered throughout, did not get the event",
+                                  dict(w2, missing=missing))
+                else:
+                    ctx.violation("reentrant-delivery-mismatch", "event not delivered exactly once, in registration order, to the observers registered throughout its dispatch", w2)
+                return
+            if any(i not in reg and i not in unstable for i in got):
+                ctx.violation("reentrant-delivery-mismatch", "event delivered to an observer that was never registered", w2)
+                return
+    ctx.distinct(("re", sc))
 
 
 def check_default_history(ctx):
@@ -342,7 +475,9 @@ def run(ctx):
             check_publisher(ctx, p)  # (a publisher that recurses without end is slow: stop after 25 witnesses)
         check_filter(ctx, f)
         check_history(ctx, h)
-        ctx.evaluated(3)
+        r = g_reentrant(ctx.case_rng("re", i))
+        check_reentrant(ctx, r)
+        ctx.evaluated(4)
         if i < 2:
             ctx.sample({"case": i, "publisher": p, "filter": f, "history": h})
     if ctx.shard == 0:
@@ -353,7 +488,9 @@ def replay(ctx, w):
     sc = w["witness"].get("scenario")
     if sc is None:
         return check_default_history(ctx)
-    if "observers" in sc:
+    if "actions" in sc:
+        check_reentrant(ctx, sc)
+    elif "observers" in sc:
         check_publisher(ctx, sc)
     elif "events" in sc:
         check_filter(ctx, sc)
